@@ -145,7 +145,7 @@ class Check:
   def machinery_failure(self, msg: str):
     print(f'MACHINERY-FAILURE property={self.prop}: {msg}', file=sys.stderr)
     self._write_evidence(extra={'machinery_failure': msg[:500]})
-    sys.exit(2)
+    _hard_exit(2)
 
   def _write_evidence(self, extra=None):
     cov = dict(self.coverage)
@@ -188,7 +188,7 @@ class Check:
     print(f'{self.prop} [{self.tier}] states={cov["states"]} transitions={cov["transitions"]} '
           f'replayed={cov["traces_validated_against_impl"]} violations={n} '
           f'known={sum(self.known_hits.values())} wall={time.time()-self.t0:.1f}s')
-    sys.exit(1 if n else 0)
+    _hard_exit(1 if n else 0)
 
 
 def _replay_main(prop, body, level, path):
@@ -239,6 +239,14 @@ def _replay_main(prop, body, level, path):
     sys.exit(1)
   print('NOT-REPRODUCED')
   sys.exit(0)
+
+
+def _hard_exit(code):
+  """Exit without joining threads: a helper thread the library under test leaked (the very thing some checks report) must
+  not keep the check process alive after its verdict is written."""
+  sys.stdout.flush()
+  sys.stderr.flush()
+  os._exit(code)
 
 
 def main(prop: str, body: Callable[[Check], None], level: str = 'model_checking'):
